@@ -27,9 +27,10 @@ LEVEL_TEXT = ("Theorems in coq/Props/C17.v. (1) memstore and cidlink.Memory, mod
               "model REFUTES containment, injectivity and refinement (C17_*_refuted, by computation), and the same inputs "
               "fail on the real code (KNOWN-FINDING lines). No bound on history length or key size in the theorems. "
               "Streams kept OPEN across other operations (open / write / commit as separate steps, 2-3 at a time) are in the models, "
-              "in C17_refines for the in-memory stores and in C17_fs_contained (proved); for fsstore C17_refines_fs is proved for "
-              "atomic operations only (premise atomic_op) and the statement with open streams is the unproved Definition "
-              "C17_refines_fs_streams_full (covered by the correspondence run and, as interleaved writers, by C18_atomic).")
+              "in C17_refines for the in-memory stores, in C17_fs_contained and in the fs refinement: C17_refines_fs_streams_full is a "
+              "proved Theorem (simulation relation: each open stream owns one staging file that collides with no shard path, no other "
+              "stream and no later put; OOpen/OWrite leave the visible map unchanged; OCommit is the atomic move), so C17_refines_fs "
+              "carries no atomic_op premise any more.")
 LEVEL_NOTE = ("cidlink.Memory keys by multihash by documented design: its specification is keyed by the projection cid_hash, "
               "this is not counted as aliasing. The fs refinement covers keys whose escaped form fits NAME_MAX (255): longer "
               "keys make Put fail with ENAMETOOLONG (modelled, observed; an error, not a wrong answer). The shape of the escaping "
